@@ -530,6 +530,8 @@ def container_method(E, n, st, recv, m, args, kw):
 def bind_params(E, c, recv, args, kw, n, st=None):
     names = list(c.params)
     bound = {}
+    if recv is not None and names and names[0] != "self" and c.cls is not None:
+        recv = None            # a staticmethod called through an instance: the receiver is not passed
     if recv is not None:
         bound[names[0]] = recv; names = names[1:]
     for nm, a in zip(names, args): bound[nm] = a
@@ -570,12 +572,19 @@ def apply_contract(E, c, recv, args, kw, st, n):
     # the current contract may name another (trusted, more abstract) view of a callee for its own call sites
     if E.cur_contract is not None and c.qual in getattr(E.cur_contract, "views", {}):
         c = E.reg.contracts[E.cur_contract.views[c.qual]]
-    params = bind_params(E, c, recv, args, kw, n, st)
     def matches(cc, pr):
-        return all(pr[nm].py is not None and pr[nm].py == val for nm, val in cc.static.items())
+        return pr is not None and all(pr[nm].py is not None and pr[nm].py == val for nm, val in cc.static.items())
+    try:
+        params = bind_params(E, c, recv, args, kw, n, st)
+    except Unsupported:
+        if not getattr(c, "variants", []): raise
+        params = None           # the call does not fit the base signature: one of the variants may
     if not matches(c, params):
         for alt in getattr(c, "variants", []):
-            pa = bind_params(E, alt, recv, args, kw, n, st)
+            try:
+                pa = bind_params(E, alt, recv, args, kw, n, st)
+            except Unsupported:
+                continue
             if matches(alt, pa):
                 c, params = alt, pa; break
         else:
